@@ -73,6 +73,60 @@ def metamorphic(ctx):
             return
 
 
+def stroke_scale(ctx):
+    """A stroke is the image under T of the user-space stroke: stroking a curved path of width w under a uniform
+    down-scale s must paint what stroking the pre-scaled path with width s*w paints under the identity (the flattening
+    tolerance is a device-space quantity).  Compared on the crate itself, away from the outline: where the reference
+    has a 3x3 block of fully painted (or untouched) pixels the scaled scene must agree."""
+    from .C08 import scale_ops
+    rng = ctx.rng
+    n = 40 if ctx.tier == "quick" else 600
+    W = H = 40
+    A, B = [], []
+    zero = " ".join(["00000000"] * (W * H))
+    for i in range(n):
+        def P():
+            return (rng.randrange(16, 4 * W - 16) / 4.0, rng.randrange(16, 4 * H - 16) / 4.0)
+        ops = ["M " + scene.fpt(*P())]
+        for _ in range(rng.randrange(1, 4)):
+            c = rng.random()
+            if c < 0.5:
+                ops.append("Q %s %s" % (scene.fpt(*P()), scene.fpt(*P())))
+            elif c < 0.85:
+                ops.append("C %s %s %s K 0" % (scene.fpt(*P()), scene.fpt(*P()), scene.fpt(*P())))
+            else:
+                ops.append("L " + scene.fpt(*P()))
+        if rng.random() < 0.3:
+            ops.append("Z")
+        s = rng.choice([0.125, 0.0625, 0.03125, 0.015625, 0.25])
+        wd = rng.choice([2.0, 3.0, 4.0, 6.0])
+        cap, join = rng.choice(["butt", "round", "square"]), rng.choice(["miter", "round", "bevel"])
+        sty = lambda w_: "STYLE %d %s %s %d 0 %d" % (FB(w_), cap, join, FB(4.0), FB(0.0))
+        A.append("scene %d %d %d I %s ; xf %s ; stroke %s %s SRC solid ffffffff 3 %d 1" % (
+            i, W, H, zero, scene.xf_tokens((s, 0.0, 0.0, s, 0.0, 0.0)), scene.path_tokens(scale_ops(ops, 1.0 / s), 0), sty(wd / s), FB(1.0)))
+        B.append("scene %d %d %d I %s ; xf %s ; stroke %s %s SRC solid ffffffff 3 %d 1" % (
+            i, W, H, zero, IDT, scene.path_tokens(ops, 0), sty(wd), FB(1.0)))
+    ra, _ = build.run_sharded(build.RQV, sc.augment(A))
+    rb, _ = build.run_sharded(build.RQV, sc.augment(B))
+    ctx.cov["scaled_stroke_pairs"] = len(A)
+    for a, b, la, lb in zip(ra, rb, A, B):
+        pa, pb = scene.split_results(a)[1], scene.split_results(b)[1]
+        if len(pa) < 2 or len(pb) < 2 or pa[-1] in ("panic", "hang") or pb[-1] in ("panic", "hang"):
+            continue
+        sa = [int(x, 16) >> 24 for x in sc.OpRes(pa[-1]).parse()["surface"]]
+        sb = [int(x, 16) >> 24 for x in sc.OpRes(pb[-1]).parse()["surface"]]
+        for y in range(1, H - 1):
+            for x in range(1, W - 1):
+                nb = [sb[(y + dy) * W + x + dx] for dy in (-1, 0, 1) for dx in (-1, 0, 1)]
+                v = sa[y * W + x]
+                if (min(nb) == 255 and v != 255) or (max(nb) == 0 and v != 0):
+                    ctx.violation("sstroke-%s" % la.split()[1], la + "\n" + lb,
+                                  "a stroke under a uniform down-scale is not the image of the user-space stroke: pixel (%d,%d) has alpha %d "
+                                  "while the same stroke drawn pre-scaled under the identity %s it and its 8 neighbours" % (
+                                      x, y, v, "fully paints" if min(nb) == 255 else "leaves untouched"))
+                    return
+
+
 def singular(xf_bits):
     from ..gen import bits_f32
     m = [bits_f32(int(v)) for v in xf_bits]
@@ -81,6 +135,8 @@ def singular(xf_bits):
 
 def post(ctx, sr):
     metamorphic(ctx)
+    if not ctx.violations:
+        stroke_scale(ctx)
     if ctx.violations:
         return
     for i in range(len(sr.cases)):
